@@ -90,6 +90,9 @@ struct World {
     notes: Vec<String>,
 }
 
+/// Buffer is #[repr(C)] { data: *mut u8, len: usize }: read the pointer the C caller sees
+fn buf_ptr(b: &Buffer) -> usize { let raw: &(usize, usize) = unsafe { &*(b as *const Buffer as *const (usize, usize)) }; raw.0 }
+
 fn pattern(len: usize, salt: u64) -> Vec<u8> { (0..len).map(|i| b"<html><body><p>x</p></body></html>\n"[(i + salt as usize) % 35]).collect() }
 
 fn run_program(ops: &[Value]) -> (bool, Vec<String>) {
@@ -116,6 +119,7 @@ fn run_program(ops: &[Value]) -> (bool, Vec<String>) {
                 let src = w.bufs.get(&o["src"].as_u64().unwrap()).unwrap();
                 let d = if o["how"] == "clone" { src.clone() } else { src.duplicate() };
                 if d.to_vec() != src.to_vec() { w.same = false; w.notes.push("duplicate differs".into()); }
+                if buf_ptr(&d) != 0 && buf_ptr(&d) == buf_ptr(src) { w.same = false; w.notes.push("duplicate shares memory with the original".into()); std::mem::forget(d); continue; }
                 w.bufs.insert(o["dst"].as_u64().unwrap(), d);
             }
             "release" => {
@@ -177,7 +181,10 @@ fn run_program(ops: &[Value]) -> (bool, Vec<String>) {
                 if out.to_vec() != want { w.same = false; w.notes.push("filter output".into()); }
                 if f.is_null() {
                     // a null filter returns a DUPLICATE: the input stays with the caller, who releases it
-                    unsafe { redirectionio_api_buffer_drop(callers_copy) };
+                    if buf_ptr(&out) != 0 && buf_ptr(&out) == buf_ptr(&callers_copy) {
+                        w.same = false; w.notes.push("null filter: the result shares memory with the caller's buffer (releasing both is a double free)".into());
+                        std::mem::forget(callers_copy);
+                    } else { unsafe { redirectionio_api_buffer_drop(callers_copy) }; }
                 } else {
                     std::mem::forget(callers_copy); // consumed by the library
                 }
@@ -230,7 +237,7 @@ fn run_program(ops: &[Value]) -> (bool, Vec<String>) {
                     let b = Buffer::from_vec(pattern(5, 1));
                     let d = redirectionio_action_body_filter_filter(std::ptr::null_mut(), std::ptr::read(&b));
                     if d.to_vec() != pattern(5, 1) { w.same = false; w.notes.push("null filter duplicate".into()); }
-                    redirectionio_api_buffer_drop(d);
+                    if buf_ptr(&d) == buf_ptr(&b) { w.same = false; w.notes.push("null filter: the result shares memory with the caller's buffer".into()); std::mem::forget(d); } else { redirectionio_api_buffer_drop(d); }
                     redirectionio_api_buffer_drop(b);
                     redirectionio_api_buffer_drop(redirectionio_action_body_filter_close(std::ptr::null_mut()));
                     redirectionio_action_body_filter_drop(std::ptr::null_mut());
@@ -295,7 +302,7 @@ pub fn gen_program(rng: &mut Rng) -> Value {
                 let rules: Vec<Value> = rules.into_iter().filter(|r| seen.insert(r["id"].as_str().unwrap().to_string())).collect();
                 ops.push(json!({"op": "action", "id": a, "rules": rules}));
                 let code = *rng.pick(&[0u64, 200, 301, 404]);
-                let headers = if rng.chance(1, 2) { json!([["Content-Type", "text/html"], ["X-A", "0"], ["location", "/old"]]) } else { json!([]) };
+                let headers = match rng.below(3) { 0 => json!([["Content-Type", "text/html"], ["X-A", "0"], ["location", "/old"]]), 1 => json!([["X-Empty", ""], ["Content-Type", "text/html"], ["X-A", ""]]), _ => json!([]) };
                 if rng.chance(2, 3) { ops.push(json!({"op": "action_use", "id": a, "code": code, "headers": headers, "add_ids": rng.chance(1, 2)})); }
                 if rng.chance(1, 2) { ops.push(json!({"op": "serialize", "id": a})); }
                 if rng.chance(2, 3) {
